@@ -14,17 +14,24 @@ pipeline, configurations nn/pn/nf/pf = without/with plan x without/with frame ar
               with literals replaced by dynamically typed values of another type
 
 ORACLE (implementation only): a program the checker accepted whose run panics, aborts or dies
-by a signal in any configuration is a failure.  Its key is
-    <class>:<site key of translator/gen_panicsites.py for the panic line>
-where <class> is `early-call` when the extracted checker WfScoped.wf_scoped rejects the
-program for the plan in use (the known shape: a hoisted function runs before a variable it
-captures is declared), `accepted` otherwise.
-MODEL TIES: (1) langcheck.compare — same ending class and same printed values, in particular
-the model predicts `panic:<site>` exactly when the implementation panics; (2) wf_static
-(extracted) is true for every accepted program; (3) wf_scoped is true for every accepted
-program that does not panic at a scoping site ... is NOT required (the checker is only
-sufficient); what is required is the converse direction of the theorem: wf_static and
-wf_scoped true  ==>  no configuration panics.
+by a signal in any configuration is a failure.  Its key names the CLASS:
+    hoisted-call-before-captured-make   the panic is at a scoping site and the extracted
+                                        WfScoped.wf_scoped rejects the program for the plan in
+                                        use (KnownClass of Properties/C06.v, open known finding)
+    loopctl-in-nested-function / method-arity-dynamic-receiver /
+    host-value-returned-under-frame-arena   the repaired defects, should they return
+    accepted:<site key of translator/gen_panicsites.py | native:<rc>>   anything else
+MODEL TIES (a break of any of them is a disagreement -> `no longer checks` -> search):
+  (1) langcheck.compare: same ending class and same printed values in every configuration; in
+      particular the model ends in `panic:<site>` exactly when the implementation panics, and
+      <site> is the psite that translator/gen_panicsites.py maps the panic line to;
+  (2) the extracted WfStatic.wf_static is true for every program the resolver accepts (so the
+      hypothesis of C06_wf_static_never_panics_structural holds of what the checker lets
+      through; a resolver that starts accepting a wrong arity / misplaced comot breaks this);
+  (3) the theorem direction on the implementation: wf_static and wf_scoped (for the plan of
+      that configuration) true  ==>  no panic at a modelled site in that configuration.
+wf_scoped is only a SUFFICIENT condition: accepted programs it rejects (early calls of
+functions that do not actually use what is declared in between) are counted, not flagged.
 """
 import importlib.util
 import os
@@ -255,7 +262,9 @@ SHAPES = [
 def dynamise(rng, src):
     """Replaces a few number literals of a generated program by a value of another type that
     travels through an identity function (statically Dynamic)."""
-    alts = ['zdyn("s")', "zdyn(true)", "zdyn(null)", "zdyn([1])", "zdyn([[1]])", "zdyn(2.5)", "zdyn(minus 1)"]
+    # only values of ANOTHER type: a number in place of a loop increment or recursion decrement
+    # could make the program non-terminating; every other type ends the statement with an error
+    alts = ['zdyn("s")', "zdyn(true)", "zdyn(null)", "zdyn([1])", "zdyn([[1]])"] * 3 + ['zdyn(command("true"))']
     lines = src.split("\n")
     cands = []
     for i, l in enumerate(lines):
@@ -321,13 +330,40 @@ def site_of_panic(text):
     f, line, msg = m.group(2), int(m.group(3)), m.group(4)
     by_line, gp = panic_sites()
     if f.endswith("runtime.rs"):
-        for d in (0, -1, 1, -2, 2):
+        for d in (0, -1, 1):
             s = by_line.get(line + d)
             if s:
                 t = gp.target_of(s["base"], s["ord"])
                 return "runtime.rs|" + s["key"], (t if isinstance(t, str) else None)
     msg = re.sub(r"\d+", "N", msg)[:80]
     return "%s|%s" % (f, msg), None
+
+
+def run_model_safe(env, name, impl_recs, order, depth=0):
+    """langrun.run_model with a large native stack (a generated program whose recursion guard
+    was made dynamically false recurses until the model's fuel is gone: 60 000 nested calls
+    of the extracted evaluator).  If the model process still dies, the shard is split until
+    the offending case is isolated; that case gets no model record (inconclusive)."""
+    inp = os.path.join(env.work, name + ".model.in")
+    outp = os.path.join(env.work, name + ".model")
+    with open(inp, "w") as f:
+        for cid in order:
+            r = impl_recs.get(cid)
+            if not r or not r.get("ast") or not r.get("plan"):
+                continue
+            f.write("case %s\n%s\n%s\nend %s\n" % (cid, r["ast"], r["plan"], cid))
+    cmd = "ulimit -s unlimited 2>/dev/null || ulimit -s 4000000 2>/dev/null; exec '%s' lang %s '%s' '%s'" % (
+        common.NSMODEL, langrun.eps_hex(), inp, outp)
+    rc, out = common.sh(["bash", "-c", cmd], timeout=1200)
+    if rc == 0:
+        return langrun.parse_records(open(outp).read().splitlines())
+    if len(order) <= 1 or depth > 16:
+        return {}
+    mid = len(order) // 2
+    a = run_model_safe(env, name + "a", impl_recs, order[:mid], depth + 1)
+    b = run_model_safe(env, name + "b", impl_recs, order[mid:], depth + 1)
+    a.update(b)
+    return a
 
 
 def run_wf(env, name, impl_recs, order):
@@ -372,14 +408,26 @@ def judge(cid, src, rec, mrec, wf, out, release=False):
     scoped_ok = {"n": w.get("scoped_n"), "p": w.get("scoped_p")}
     if crashed:
         cfg, text = crashed[0]
-        skey, psite = site_of_panic(text) if not text.startswith("crash") and not text.startswith("timeout") else ("native:" + text, None)
-        cls = "accepted"
+        native = text.startswith("crash") or text.startswith("timeout")
+        skey, psite = ("native:" + text, None) if native else site_of_panic(text)
+        crashed_cfgs = sorted(c for c, _ in crashed)
+        frame_only = all(c.endswith("f") for c in crashed_cfgs)
         if psite in SCOPING_SITES and scoped_ok[langcheck.MODEL_CFG.get(cfg, "n")] == "0":
-            cls = "early-call"
-        key = "%s:%s" % (cls, skey)
+            # KnownClass of Properties/C06.v: not wf_scoped, and the panic is at a scoping site
+            key = "hoisted-call-before-captured-make"
+        elif psite == "PBreakEscapes" and w.get("loopctl") == "0":
+            key = "loopctl-in-nested-function"
+        elif psite == "PArgIndex" and w.get("wf") == "0":
+            key = "method-arity-dynamic-receiver"
+        elif frame_only and "command(" in src:
+            key = "host-value-returned-under-frame-arena"
+        elif frame_only:
+            key = "frame-arena-only:" + skey
+        else:
+            key = "accepted:" + skey
         if not any(f["key"] == key for f in out["failures"]):
-            out["failures"].append({"key": key, "case": src, "id": cid, "profile": prof,
-                                    "observed": "accepted program, configuration(s) %s: %s" % (",".join(c for c, _ in crashed), text[:200]),
+            out["failures"].append({"key": key, "case": src, "id": cid, "profile": prof, "site": skey, "psite": psite,
+                                    "observed": "accepted program, configuration(s) %s: %s" % (",".join(crashed_cfgs), text[:200]),
                                     "model": (mrec or {}).get("runs"), "wf": w})
         out["crash_keys"][key] = out["crash_keys"].get(key, 0) + 1
     if mrec is not None:
@@ -398,6 +446,8 @@ def judge(cid, src, rec, mrec, wf, out, release=False):
                 elif psite is None and em.startswith("panic:"):
                     out["disagreements"].append({"stream": "panic-site-unmapped", "id": cid, "case": src,
                                                  "impl_site": skey, "model": em})
+    elif rec.get("ast"):
+        out["compare"]["no-model-record"] = out["compare"].get("no-model-record", 0) + 1
     if w:
         if "badast" in w:
             out["disagreements"].append({"stream": "wf-badast", "id": cid, "case": src, "detail": w["badast"]})
@@ -407,6 +457,8 @@ def judge(cid, src, rec, mrec, wf, out, release=False):
             # theorem direction: all checkers true => no panic in the matching configuration
             for cfg, text in crashed:
                 mc = langcheck.MODEL_CFG.get(cfg)
+                if text.startswith(("crash", "timeout")) or site_of_panic(text)[1] is None:
+                    continue        # not a modelled site (memory / native): the oracle above reports it
                 if mc and w.get("wf") == "1" and scoped_ok[mc] == "1":
                     out["disagreements"].append({"stream": "checkers-pass-but-crash", "id": cid, "case": src, "cfg": cfg,
                                                  "observed": text[:200]})
@@ -418,10 +470,10 @@ def judge(cid, src, rec, mrec, wf, out, release=False):
 def run_stream(env, name, cases, out, model=True, release=False):
     order = [c for c, _ in cases]
     srcs = dict(cases)
-    recs = langrun.run_impl(env, name, cases, CFGS, release=release, timeout=1200)
+    recs = langrun.run_impl(env, name, cases, CFGS, release=release, timeout=300)
     mrecs = {}
     if model:
-        mrecs = langrun.run_model(env, name, recs, order)
+        mrecs = run_model_safe(env, name, recs, order)
     wf = run_wf(env, name, recs, order) if model else {}
     for cid in order:
         rec = recs.get(cid)
